@@ -40,9 +40,9 @@ def run(ctx):
     ctx.count("deblock-kernel sweep (scalar + vector kernel vs Annex J tables)", n,
               [("sweep", n)], sample={"A": 100, "B": 100, "C": 93, "D": 93, "strength": 4, "annexJ": "(99,98,95,94)"},
               exhaustive=thorough,
-              note=("all 2^32 patterns x 12 strengths x 2 kernels" if thorough else
+              note=("all 2^32 patterns x 12 strengths x 2 kernels (vector kernel with mixed and with uniform lanes)" if thorough else
                     "A,D on the 16-point lattice {0,17,..,255}, B,C all 256 values, 12 strengths, 2 kernels; "
-                    "each vector call carries 8 different patterns in its 8 lanes"))
+                    "every pattern goes through the vector kernel twice: in a call whose 8 lanes carry 8 different patterns and in a lane-uniform call"))
     # direct three-way evaluation of a few hundred random patterns: spec = scalar model = lane model = both kernels
     rng = ctx.rng.fork("kernel-direct")
     kc = ctx.path("kernel.cases")
